@@ -565,8 +565,9 @@ def v17(rep):
                 key = "bucket-index-within-own-count:%s:%s" % (name, t)
                 if bound == own:
                     rep.ok("V17", key + "@%d" % y["l"], nontrivial=False)
-                elif made.get(t) == bound:
-                    rep.ok("V17", key + "@%d" % y["l"], sample={"loop": bound, "made-with": made[t]})
+                elif made.get(t) == bound or (bound.endswith("->buckc") and made.get(bound[:-len("->buckc")]) in (own, made.get(t, 0))):
+                    # the loop runs to the count of a table that was made with this table's count (or both with the same one)
+                    rep.ok("V17", key + "@%d" % y["l"], sample={"loop": bound, "made-with": made.get(t, made.get(bound[:-len("->buckc")], "?"))})
                 else:
                     rep.violation("V17", key, "table.c:%d (%s)" % (y["l"], name),
                                   "`%s` is indexed by a loop that runs to `%s`, but %s has %s buckets: stores for the buckets "
